@@ -3,6 +3,7 @@ package main
 // C04 — processes sharing a counter file never corrupt it, even when killed (publication discipline).
 
 import (
+	"os"
 	"fmt"
 	"go/token"
 	"strings"
@@ -39,7 +40,8 @@ func resultStored(ret *ssa.Return, i int) ssa.Value {
 	for j := len(b.Instrs) - 1; j >= 0; j-- {
 		if st, ok := b.Instrs[j].(*ssa.Store); ok && st.Addr == ssa.Value(al) {
 			if l2, ok := st.Val.(*ssa.UnOp); ok && l2.Op == token.MUL && l2.X == ssa.Value(al) {
-				return nil // "return v" of the named result itself: value set earlier
+				// "return v" of the named result itself: the value set earlier, if that was in this block
+				return lastStoreBefore(al, l2)
 			}
 			return st.Val
 		}
@@ -105,7 +107,7 @@ func c04Publication(c *Ctx, m *Module, pfx string) {
 	la := linkCAS.Call.Args
 	r.Check(pfx+".reserve-write-link", "newCounter/link installs the written record's offset", m.Pos(linkCAS.Pos()), la[3] == wr.Call.Args[1] || describe(la[3]) == describe(wr.Call.Args[1]),
 		"cas32(headOff, head, start) with the start passed to writeEntryAt; got "+describe(la[3])+" vs "+describe(wr.Call.Args[1]))
-	r.Check(pfx+".reserve-write-link", "newCounter/record written at the reserved start", m.Pos(wr.Pos()), strings.HasSuffix(describe(wr.Call.Args[1]), ").place("+describePlaceArgs(resCAS)+")#0") || samePlace(wr.Call.Args[1], resCAS.Call.Args[3]),
+	r.Check(pfx+".reserve-write-link", "newCounter/record written at the reserved start", m.Pos(wr.Pos()), strings.HasSuffix(describe(refine(wr.Call.Args[1], factsAt(wr))), ").place("+describePlaceArgs(resCAS)+")#0") || samePlace(refine(wr.Call.Args[1], factsAt(wr)), resCAS.Call.Args[3]),
 		"the offset written is place()'s start whose end was CASed into the limit")
 	// next.Store(head) right before each link attempt, same head
 	var nextStore *ssa.Call
@@ -188,49 +190,50 @@ func c04Publication(c *Ctx, m *Module, pfx string) {
 		"after a failed link CAS the records prepended meanwhile must be inspected")
 	if walkEntry != nil {
 		nMatch := 0
-		for _, b := range nc.Blocks {
-			ret, ok := b.Instrs[len(b.Instrs)-1].(*ssa.Return)
-			if !ok {
-				continue
+		isMatch := func(f Fact) bool {
+			bo, ok := f.Cond.(*ssa.BinOp)
+			if !ok || !assertsEq(bo, f.Pol) {
+				return false
+			}
+			d := describe(bo.X) + "|" + describe(bo.Y)
+			return strings.Contains(d, "entryAt(") && strings.Contains(d, "#0") && strings.Contains(d, "param:name")
+		}
+		for _, ex := range exitPaths(nc) {
+			ret := ex.ret
+			if os.Getenv("VERIF_DEBUG_EXITS") != "" {
+				fmt.Printf("EXIT %s vals=%s | %s | %s nfacts=%d\n", m.Pos(ret.Pos()), shortDesc(describe(ex.vals[0])), shortDesc(describe(ex.vals[1])), shortDesc(describe(ex.vals[2])), len(ex.facts))
 			}
 			// under string(ename) == name
-			match := hasFact(factsAt(ret), func(f Fact) bool {
-				bo, ok := f.Cond.(*ssa.BinOp)
-				if !ok || !assertsEq(bo, f.Pol) {
-					return false
-				}
-				d := describe(bo.X) + "|" + describe(bo.Y)
-				return strings.Contains(d, "entryAt(") && strings.Contains(d, "#0") && strings.Contains(d, "param:name")
-			})
-			if !match {
+			if !hasFact(ex.facts, isMatch) {
 				continue
 			}
 			nMatch++
-			v := refine(resultStored(ret, 0), factsAt(ret))
+			v := refine(ex.vals[0], ex.facts)
 			okV := false
 			if e, ok := v.(*ssa.Extract); ok && e.Tuple == ssa.Value(walkEntry) && e.Index == 2 {
 				okV = true
 			}
 			r.Check(pfx+".duplicate-check", "newCounter/returns the existing record on a name match", m.Pos(ret.Pos()), okV,
 				"when another writer linked the same name first, the value returned must be THAT record's (entryAt's v), not our unlinked one; returns "+describe(v))
+			// our own record is marked dead under the same match
 			dead := false
-			for _, in := range b.Instrs {
+			for _, in := range instrsOf(nc) {
 				if cl, ok := in.(*ssa.Call); ok && calleeName(&cl.Call) == "(*sync/atomic.Uint32).Store" {
 					if e, ok := cl.Call.Args[0].(*ssa.Extract); ok && e.Tuple == ssa.Value(wr) && e.Index == 0 {
-						if k, isC := intConst(cl.Call.Args[1]); isC && uint32(k) == ^uint32(0) {
+						if k, isC := intConst(cl.Call.Args[1]); isC && uint32(k) == ^uint32(0) && hasFact(factsAt(cl), isMatch) {
 							dead = true
 						}
 					}
 				}
 			}
 			r.Check(pfx+".duplicate-check", "newCounter/own record marked dead on a name match", m.Pos(ret.Pos()), dead, "next.Store(^0) on our record")
-			r.Check(pfx+".duplicate-check", "newCounter/no error and no remap reported on a name match", m.Pos(ret.Pos()), isNilConst(resultStored(ret, 2)), "err must be nil")
+			r.Check(pfx+".duplicate-check", "newCounter/no error and no remap reported on a name match", m.Pos(ret.Pos()), isNilConst(ex.vals[2]), "err must be nil")
 		}
 		r.Check(pfx+".duplicate-check", "newCounter/has the name-match exit", m.Pos(nc.Pos()), nMatch == 1, fmt.Sprintf("%d", nMatch))
 		// success return after the link CAS returns our v
-		for _, b := range nc.Blocks {
-			ret, ok := b.Instrs[len(b.Instrs)-1].(*ssa.Return)
-			if !ok || !hasFact(factsAt(ret), func(f Fact) bool { return f.Cond == ssa.Value(linkCAS) && f.Pol }) {
+		for _, ex := range exitPaths(nc) {
+			ret := ex.ret
+			if !hasFact(ex.facts, func(f Fact) bool { return f.Cond == ssa.Value(linkCAS) && f.Pol }) {
 				continue
 			}
 			// *t1 was set right after writeEntryAt
@@ -242,7 +245,7 @@ func c04Publication(c *Ctx, m *Module, pfx string) {
 					}
 				}
 			}
-			v := resultStored(ret, 0)
+			v := ex.vals[0]
 			if e, ok := v.(*ssa.Extract); ok && e.Tuple == ssa.Value(wr) && e.Index == 1 {
 				okOwn = true
 			}
